@@ -19,7 +19,7 @@ from sym import *
 import sym
 from model import *
 from evalr import SeqV, StructV, RefV, Cell, stored_sum, S_of, seglen, norm_segs
-from rules.C01 import writers_of
+from rules.C01 import writers_of, z
 from rules.C02 import _generic_variants, _sdt_arg, read_le
 
 LEVEL = 'proof'
@@ -84,19 +84,27 @@ def _run(ctx, rep):
         ok, why = segs_equal(d.segs, want, [c for c, _ in I.st.facts])
         rep.ob('header', 'sdt::Sdt::new', ok, 'Sdt::new lays the header out as %s: %s' % (show_segs(d.segs)[:200], why), sp=fs['new']['sp'], detail={'layout': show_segs(d.segs), 'specified': show_segs(want)})
         rep.ob('refusal', 'sdt::Sdt::new', any(g['cond'] == cmp('le', C(36), P('length')) for g in I.guards), 'a declared length below 36 is not refused', sp=fs['new']['sp'], detail={'guards': [show(g['cond']) for g in I.guards]})
+        # the checksum clause: the image sums to zero and byte 9 was the last thing written (how it is computed - zero,
+        # sum, store; or sum with the stale byte and take it back out - is not part of the property)
+        from rules.C01 import z
         ck_ok = [s for s in d.stores if s[0] == C(9)]
-        rep.ob('checksum', 'sdt::Sdt::new', len(ck_ok) == 2 and ck_ok[0][1] == ZERO, 'new does not end in the zero/sum/store sequence on byte 9', sp=fs['new']['sp'])
+        sym.CTX = I.st.ranges
+        try:
+            zero_ = equal(z(stored_sum(('stored', tuple(d.segs), tuple(d.stores), 1, 'u8'))), ZERO, [c for c, _ in I.st.facts])[0]
+        finally:
+            sym.CTX = {}
+        rep.ob('checksum', 'sdt::Sdt::new', len(ck_ok) >= 1 and d.stores[-1][0] == C(9) and zero_, 'new does not end by storing a checksum byte that makes the image sum to zero', sp=fs['new']['sp'])
 
     # ---- update_checksum shape: data[9] = 0; c = -S(whole); data[9] = c
     I = new_interp(f); sv = I.sym_value(ty, 'self')
     run_fn(I, fs['update_checksum']['def'], [RefV(Cell(sv), True)]); rep.analysed.add(fs['update_checksum']['def'])
     d = sv.fields['data']
-    ok = not I.tops and len(d.stores) == 2 and d.stores[0] == (C(9), ZERO) and d.stores[1][0] == C(9)
+    # it may write byte 9 only, and afterwards the whole image sums to zero
+    from rules.C01 import z
+    ok = not I.tops and len(d.stores) >= 1 and all(is_term(i_) and i_ == C(9) for i_, _ in d.stores)
     if ok:
-        c = d.stores[1][1]
-        whole0 = stored_sum(('stored', tuple(d.segs), (d.stores[0],), 1, 'u8'))
-        ok = equal(wrap(add(c, whole0), 256), ZERO)[0]
-    rep.ob('checksum', 'sdt::Sdt::update_checksum', ok, 'update_checksum is not: zero byte 9; sum the whole image; store the complement', sp=fs['update_checksum']['sp'],
+        ok = equal(z(stored_sum(('stored', tuple(d.segs), tuple(d.stores), 1, 'u8'))), ZERO)[0]
+    rep.ob('checksum', 'sdt::Sdt::update_checksum', ok, 'update_checksum must write byte 9 only and leave an image that sums to zero', sp=fs['update_checksum']['sp'],
            detail={'stores': [(show(i) if isinstance(i, tuple) and i[0] != 'range' else str(i), show(v) if isinstance(v, tuple) and v and isinstance(v[0], str) else str(v)) for i, v in d.stores]})
 
     # ---- every public mutator
@@ -121,12 +129,18 @@ def _run(ctx, rep):
             finally:
                 sym.CTX = {}
             # must end in update_checksum: the last two stores are [9]:=0, [9]:=c with nothing after
-            tail = d.stores[-2:]
-            ok = len(tail) == 2 and tail[0] == (C(9), ZERO) and tail[1][0] == C(9)
+            # (the last thing that touches the image is a store to byte 9, and the image then sums to zero: C01 decides the sum)
+            ok = len(d.stores) >= 1 and d.stores[-1][0] == C(9)
             # (only events that touch the table: its image or one of its own fields; a local Checksum is not the table)
             mine = lambda ev: ev[0] == 'mutate' and (len(ev) < 4 or ev[3] is None or ev[3] in (d.uid, sv.uid))
-            last_muts = [ev[1] for ev in I.log if mine(ev)][-2:]
-            ok = ok and last_muts == ['index-store', 'index-store']     # nothing touches the image after the recomputation
+            last_muts = [ev[1] for ev in I.log if mine(ev)][-1:]
+            ok = ok and last_muts == ['index-store']     # nothing touches the image after the recomputation
+            if ok:
+                sym.CTX = I.st.ranges
+                try:
+                    ok = equal(z(stored_sum(('stored', tuple(d.segs), tuple(d.stores), 1, 'u8'))), ZERO, [c for c, _ in I.st.facts])[0]
+                finally:
+                    sym.CTX = {}
             rep.ob('checksum', subj, ok, '%s does not end by recomputing the checksum (something modifies the image afterwards or it is not recomputed)' % name, sp=b['sp'],
                    detail={'last_mutations': last_muts})
             # refusal before mutation
